@@ -70,8 +70,9 @@ Proof.
   - destruct (j_ext J) as [e|]; [|discriminate].
     destruct (has_var s var) eqn:E; [|discriminate]. rewrite (proj2 F1 var E).
     destruct (flow_distinct e src tg && _); [|discriminate].
-    pose proof (zple_find Z T (e_xr e) H) as F3.
+    pose proof (zple_find Z T (e_xr e) H) as F3. pose proof (zple_find Z T (e_fx e) H) as F4.
     destruct (find_sec (e_xr e) Z) as [xr|], (find_sec (e_xr e) T) as [xr'|]; try contradiction; [|discriminate].
+    destruct (find_sec (e_fx e) Z) as [fx|], (find_sec (e_fx e) T) as [fx'|]; try contradiction; [|discriminate].
     rewrite (attrs_fullcode _ _ (proj1 F3)).
     destruct (has_var xr (cur_of_sec J s)) eqn:E2; [|discriminate]. now rewrite (proj2 F3 _ E2).
 Qed.
@@ -155,15 +156,18 @@ Proof.
   - rewrite (is_ext _ _ _ HI). destruct (j_ext J) as [e|] eqn:EX; [|exact Logic.I].
     destruct (has_var s0 var); [|exact Logic.I].
     destruct (is_ext_fix _ _ _ HI e EX) as (Fxr & Ffx & _).
+    assert (EXR : forall a0, Nat.eqb (f a0) (e_xr e) = Nat.eqb a0 (e_xr e)) by (intros a0; rewrite <- Fxr at 1; apply eqb_f).
+    assert (EFX : forall a0, Nat.eqb (f a0) (e_fx e) = Nat.eqb a0 (e_fx e)) by (intros a0; rewrite <- Ffx at 1; apply eqb_f).
     assert (FD : flow_distinct e (f src) (f tg) = flow_distinct e src tg).
-    { unfold flow_distinct. rewrite <- Fxr at 2 4. rewrite <- Ffx at 2 4. now rewrite !eqb_f, Fxr, Ffx. }
+    { unfold flow_distinct. now rewrite !EXR, !EFX. }
     rewrite FD. destruct (flow_distinct e src tg && _); [|exact Logic.I].
     pose proof (zrel_find f Z Z' (e_xr e) Hinj ND HZ) as F3. rewrite Fxr in F3.
+    pose proof (zrel_find f Z Z' (e_fx e) Hinj ND HZ) as F4. rewrite Ffx in F4.
     destruct (find_sec (e_xr e) Z) as [xr|], (find_sec (e_xr e) Z') as [xr'|]; try contradiction; [|exact Logic.I].
+    destruct (find_sec (e_fx e) Z) as [fx|], (find_sec (e_fx e) Z') as [fx'|]; try contradiction; [|exact Logic.I].
     rewrite (srel_has_var _ _ _ _ F3). destruct (srel_attrs _ _ _ F3) as (_ & _ & FCx & _). rewrite FCx.
     destruct (has_var xr (cur_of_sec J s0)); [|exact Logic.I].
-    intros x y R. unfold flow_lops2. rewrite !(CASH x y _ _ R). destruct R as [Rs _]. rewrite Rs, !eqb_f.
-    rewrite <- Fxr at 1. rewrite <- Ffx at 1. now rewrite !eqb_f.
+    intros x y R. unfold flow_lops2. rewrite !(CASH x y _ _ R). destruct R as [Rs _]. now rewrite Rs, !eqb_f, !EXR, !EFX.
 Qed.
 
 Lemma fplans_rn Z Z' xs : NoDup (map sid Z) -> zrel f Z Z' ->
@@ -285,3 +289,46 @@ Proof.
   - fold (apply_lops (flat gs) Z) in A1. eapply apply_lops_ple; exact A1.
 Qed.
 End Flows.
+
+(* ------------------------------------------------------------------ *)
+(** * Exogenous variables *)
+
+Lemma exo_lops_ok2 x s n spec : Forall (Ok2 x) (exo_lops s n spec x).
+Proof.
+  unfold exo_lops. destruct (Nat.eqb (sid x) s); constructor; [|constructor]. unfold Ok2.
+  destruct (isx x); [split; [reflexivity|]|]; cbn; intros _; constructor.
+Qed.
+
+Lemma exo_flat_ok2 Z xs gs s : plans _ exo_plan Z xs = Ok gs -> Forall (Ok2 s) (flat gs s).
+Proof.
+  revert gs. induction xs as [|x r IH]; intros gs H; cbn [plans] in H; [injection H as <-; constructor|].
+  destruct (exo_plan Z x) as [g|] eqn:E; [|discriminate]. cbn [bind] in H. destruct (plans _ exo_plan Z r) as [gs'|]; [|discriminate].
+  injection H as <-. unfold flat. cbn [flat_map]. apply Forall_app. split; [|now apply IH].
+  destruct (exo_plan_inv _ _ _ E) as (s0 & n & spec & ->). apply exo_lops_ok2.
+Qed.
+
+Theorem exo_cross2 f Z Z' EX Z2 : (forall a b, f a = f b -> a = b) -> NoDup (map sid Z) -> zrel f Z Z' ->
+  (forall s, List.In s Z -> Wf2 s) -> foldM exo_step EX Z = Ok Z2 ->
+  exists Z2', foldM exo_step (map (rn_trip f) EX) Z' = Ok Z2' /\ zrel f Z2 Z2' /\ zpres Z Z2.
+Proof.
+  intros Hf ND HZ HW H.
+  pose proof (exo_fold EX Z Z ND (zpres_refl Z)) as R1. rewrite H in R1.
+  destruct (plans _ exo_plan Z EX) as [gs|] eqn:PG; [|contradiction]. cbn [bind] in R1.
+  destruct (apply_lops (flat gs) Z) as [Z2x|] eqn:A1; [|contradiction]. cbn in R1. subst Z2x.
+  pose proof (exo_plans_rn f Z Z' EX Hf ND HZ) as PR. rewrite PG in PR.
+  destruct (plans _ exo_plan Z' (map (rn_trip f) EX)) as [gs'|] eqn:PG'; [|contradiction].
+  assert (ND' : NoDup (map sid Z')) by (eapply zrel_nodup; eassumption).
+  pose proof (exo_fold (map (rn_trip f) EX) Z' Z' ND' (zpres_refl Z')) as R2. rewrite PG' in R2. cbn [bind] in R2.
+  pose proof A1 as A1z. unfold apply_lops in A1z.
+  destruct (zrel_zmap_fwd f (fun s => run_ops (flat gs s) s) (fun d => run_ops (flat gs' d) d) Z Z' Z2 HZ A1z) as (Z2' & A2 & HZ2).
+  { intros s d t Hin R E. rewrite (PR s d R).
+    pose proof (run_ops_cong2 f s d _ _ R (HW s Hin) (exo_flat_ok2 Z EX gs s PG) (ops_eqv_refl _)) as CG. rewrite E in CG.
+    destruct (run_ops (flat gs s) d) as [d1|]; [|contradiction]. exists d1. split; [reflexivity|exact CG]. }
+  fold (apply_lops (flat gs') Z') in A2. rewrite A2 in R2.
+  destruct (foldM exo_step (map (rn_trip f) EX) Z') as [Zx|]; [|contradiction]. cbn in R2. subst Zx.
+  exists Z2'. split; [reflexivity|]. split; [exact HZ2|].
+  eapply apply_lops_keeps; [|exact A1]. intros s.
+  clear -PG. revert gs PG. induction EX as [|x r IH]; intros gs H; cbn [plans] in H; [injection H as <-; reflexivity|].
+  destruct (exo_plan Z x) as [g|] eqn:E; [|discriminate]. cbn [bind] in H. destruct (plans _ exo_plan Z r) as [gs'|]; [|discriminate].
+  injection H as <-. unfold flat. cbn [flat_map]. rewrite forallb_app. rewrite (exo_plan_keeps _ _ _ E s). now apply IH.
+Qed.
